@@ -1327,10 +1327,20 @@ impl<E: Effect> Executor<E> {
                             .ok(); // Ignore errors since this is internal notification
                     }
                     Some(Err(error)) => {
-                        // Error - propagate to awaiter by setting their result
+                        // Error - propagate to awaiter by setting their result, if it is awaiting
+                        // this process right now (an earlier select that listed it may have
+                        // completed through another source and left its entry behind).
                         if let Some(awaiter_process) = self.get_process_mut(awaiter) {
-                            awaiter_process.result = Some(Err(error.clone()));
-                            awaiter_process.frames.clear();
+                            let awaiting_now =
+                                awaiter_process.select_state.as_ref().is_some_and(|select| {
+                                    select.sources.iter().any(|source| {
+                                        matches!(source, Value::Process(id, _) if *id == current_pid)
+                                    })
+                                });
+                            if awaiting_now {
+                                awaiter_process.result = Some(Err(error.clone()));
+                                awaiter_process.frames.clear();
+                            }
                         }
                     }
                     None => {
